@@ -143,11 +143,21 @@ func judgeCorpusTree(it corpus.Item) []finding {
 		if rv != top && rv.Format == nil {
 			continue // nested buffers built without gap filling
 		}
-		if _, ok := rv.V.(*decode.Compound); !ok {
-			continue
-		}
 		l, err := bitiox.Len(rv.RootReader)
 		if err != nil {
+			continue
+		}
+		if _, ok := rv.V.(*decode.Compound); !ok {
+			// a format whose root is one scalar (json, yaml, text formats): it is the only field
+			// and there is nowhere to put a gap, so it has to span its whole buffer
+			if ir := rv.InnerRange(); rv.Err == nil && (ir.Start != 0 || ir.Len != l) {
+				fname := "?"
+				if rv.Format != nil {
+					fname = rv.Format.Name
+				}
+				out = append(out, finding{sig: "tree:scalar-root-does-not-cover-buffer:" + fname,
+					msg: fmt.Sprintf("%s (%s): the root is a single scalar with range %d:%d, its buffer has %d bits: bits %d..%d are in no field and no gap field", dsl.PathOf(rv), fname, ir.Start, ir.Start+ir.Len, l, ir.Start+ir.Len, l)})
+			}
 			continue
 		}
 		buf, err := dsl.ReaderBits(rv.RootReader)
